@@ -43,6 +43,8 @@ class MultiVector:
                     target, swaps = algebra._blade2canon(key)
                     if target not in algebra.canon2bin:
                         raise ValueError(f"{key} is not a basis blade of this algebra.")
+                    if target in items:
+                        raise ValueError(f"{key} and {target} denote the same basis blade.")
                     items[target] = - items.pop(key) if swaps % 2 else items.pop(key)
 
             keys, values = zip(*((blade, items[blade]) for blade in algebra.canon2bin if blade in items))
